@@ -272,7 +272,7 @@ fn k_ts_8_allocate_from_free_list() {
     z.runtime_mut().new_revision();
     z.runtime_mut().new_revision();
     let cur = z.current_revision();
-    let local = ZalsaLocal::new();
+    let local = crate::zalsa_local::verif::local_static();
     let ing = IngredientImpl::<KT>::new(IngredientIndex::new(0));
     let id0 = alloc_struct(&z, &ing, None, Durability::LOW, Revision::start());
     let g: u32 = vk::any();
@@ -330,7 +330,7 @@ fn k_ts_9_tracked_field_read_reports_field_stamp() {
     let mut z = crate::zalsa::verif::bare_zalsa();
     z.runtime_mut().new_revision();
     let cur = z.current_revision();
-    let local = ZalsaLocal::new();
+    let local = crate::zalsa_local::verif::local_static();
     let ing = IngredientImpl::<KT>::verif_new(IngredientIndex::new(0));
     let d = vk::any_durability();
     let fr = vk::any_revision();
